@@ -6,6 +6,8 @@ HARNESS = {
     "h_quire": dict(src="h_quire.cpp"),
     "h_pconv": dict(src="h_pconv.cpp"),
     "h_hist": dict(src="h_hist.cpp"),
+    "h_hist_san": dict(src="h_hist.cpp", flags=SAN),
+    "h_ub": dict(src="h_ub.cpp", flags=["-g", "-fsanitize=undefined", "-fno-sanitize-recover=all"]),
     "h_threads": dict(src="h_threads.cpp", flags=["-pthread"]),
     "h_threads_tsan": dict(src="h_threads.cpp", flags=["-pthread", "-g", "-fsanitize=thread"]),
     "h_posit_san": dict(src="h_posit.cpp", flags=SAN + ["-DUV_SAN_SMALL"]),
@@ -150,7 +152,7 @@ CONTRIB = {
         assumptions=[],
     ),
     "C20": dict(
-        harness=["h_posit_san", "h_quire_san", "h_pconv_san", "h_threads"],
+        harness=["h_posit_san", "h_quire_san", "h_pconv_san", "h_hist_san", "h_ub", "h_threads"],
         thorough_harness=["h_threads_tsan"],
         streams=lambda tier, seed, exes: c20_streams(tier, seed, exes),
         proof_modules=["UVerifProofs.Props.C20"],
@@ -188,6 +190,8 @@ def c20_streams(tier, seed, exes):
         jobs.append(dict(exe=qe, args=["hist", str(n), str(es), str(c), "150" if tier == "quick" else "4000"], label=f"ASan+UBSan quire<{n},{es},{c}> histories"))
         jobs.append(dict(exe=qe, args=["part", str(n), str(es), str(c), "300" if tier == "quick" else "8000"], label=f"ASan+UBSan quire<{n},{es},{c}> partitions"))
     jobs.append(dict(exe=exes["h_pconv_san"], args=["exh", "200"], label="ASan+UBSan posit->posit"))
+    jobs.append(dict(exe=exes["h_hist_san"], args=["400" if tier == "quick" else "20000"], label="ASan+UBSan integer/fixpnt operation histories"))
+    jobs.append(dict(exe=exes["h_ub"], args=[], label="UBSan probes of operations known or suspected to leave defined behaviour (forked children)"))
     jobs.append(dict(exe=exes["h_threads"], args=["8", "3000"], label="8 threads x identical programs on distinct objects"))
     if tier == "thorough" and "h_threads_tsan" in exes:
         jobs.append(dict(exe=exes["h_threads_tsan"], args=["8", "3000"], label="TSan: 8 threads x identical programs on distinct objects"))
